@@ -794,7 +794,14 @@ fn visit_fragment_spread<'a, V: Visitor<'a>>(
             .fragments
             .get(fragment_spread.node.fragment_name.node.as_str())
     {
-        visit_selection_set(v, ctx, &fragment.node.selection_set);
+        // The fields of the fragment belong to its type condition, not to the
+        // type of the selection set the fragment is spread in.
+        ctx.with_type(
+            ctx.registry
+                .types
+                .get(fragment.node.type_condition.node.on.node.as_str()),
+            |ctx| visit_selection_set(v, ctx, &fragment.node.selection_set),
+        );
     }
     v.exit_fragment_spread(ctx, fragment_spread);
 }
